@@ -1,7 +1,8 @@
 package main
 
 // Forced schedules for muc.Channel.JoinPresence / LeavePresence against
-// muc.Client.HandlePresence (pinned behaviour of muc/*; no fixes here).
+// muc.Client.HandlePresence (the depart channel has capacity 1 and
+// LeavePresence drops a stale notification when it starts).
 
 import (
 	"bytes"
@@ -61,10 +62,13 @@ type mucRun struct {
 	unavailSent bool
 	unavailDone bool
 	departTo    int
+	dtok        bool   // a depart notification is buffered
+	leftVia     string // label for a Leave call that returns nil: MDepartTo (direct) or MDepartRecv (buffered)
+	lateLeave   bool   // a Leave call started after the departure was handled
 }
 
 func newMucRun() (*mucRun, error) {
-	x := &mucRun{spos: "idle", holdFor: -1, departTo: -1}
+	x := &mucRun{spos: "idle", holdFor: -1, departTo: -1, leftVia: "MDepartTo"}
 	x.client = &muc.Client{}
 	x.client.HandleUserPresence = func(stanza.Presence, muc.Item) { x.userSeen++ } // serve goroutine only
 	m := mux.New(stanza.NSClient, muc.HandleClient(x.client))
@@ -108,7 +112,15 @@ func (x *mucRun) callRet(c *mucCall, i int, how string) {
 		x.label("MJoinRecv %d%%nat", i)
 		x.classes["joined"] = true
 	case "MCLeft":
-		x.label("MDepartTo %d%%nat", i)
+		if x.leftVia == "MDepartRecv" {
+			if !x.dtok {
+				x.fail("C06/muc-leave/phantom-depart", "a Leave call returned nil although no departure notification was pending")
+			}
+			x.dtok = false
+			x.classes["left-buffered"] = true
+		}
+		x.label("%s %d%%nat", x.leftVia, i)
+		x.departTo = i
 		x.classes["left"] = true
 	case "MCCtx":
 		if !c.canc {
@@ -142,10 +154,20 @@ func (x *mucRun) settle() {
 	for !x.failed {
 		progressed := false
 		for i, c := range x.calls {
+			if c.pos == "wait" && c.kind == "leave" && x.dtok && !(c.canc || c.errOff) {
+				if x.expect(c.a, "C06/muc-leave/call-stuck:notification-buffered", "C06/muc/handler-panic", "a Leave call in its select did not take the buffered departure notification", "ret") == "" {
+					return
+				}
+				x.leftVia = "MDepartRecv"
+				x.callRet(c, i, "MCLeft")
+				progressed = true
+				continue
+			}
 			if c.pos == "wait" && (c.canc || c.errOff) {
 				if x.expect(c.a, "C06/muc-"+c.kind+"/call-stuck", "C06/muc/handler-panic", "a call whose context is cancelled or whose error reply arrived did not return", "ret") == "" {
 					return
 				}
+				x.leftVia = "MDepartRecv" // with a buffered notification the select may take that instead
 				x.callRet(c, i, "")
 				progressed = true
 			}
@@ -267,6 +289,10 @@ func (x *mucRun) do(a mucAction) {
 			x.label("MStartJoin")
 		} else {
 			x.label("MStartLeave")
+			x.dtok = false // LeavePresence drops a notification left from before it started
+			if x.unavailDone {
+				x.lateLeave = true
+			}
 		}
 	case "enter":
 		c := x.calls[a.C]
@@ -276,7 +302,7 @@ func (x *mucRun) do(a mucAction) {
 		}
 		c.pos = "wait"
 		x.label("MEnter %d%%nat", a.C)
-		willReturn := c.canc || c.errOff || (x.spos == "inner" && a.C == 0)
+		willReturn := c.canc || c.errOff || (x.spos == "inner" && a.C == 0) || (c.kind == "leave" && x.dtok)
 		if !willReturn && !waitBlocked(c.a, watchdog, "select") {
 			x.fail("C06/harness/unexpected-step", "the call did not block in its select")
 			return
@@ -372,15 +398,21 @@ func (x *mucRun) do(a mucAction) {
 				}
 			}
 			if got >= 0 {
+				x.leftVia = "MDepartTo"
 				x.callRet(x.calls[got], got, "MCLeft")
-				x.departTo = got
 			} else {
 				if waiting > 0 {
 					x.fail("C06/muc-leave/depart-not-delivered", "a Leave call was blocked in its select but did not receive the depart notification")
 					return
 				}
-				x.label("MDepartLost")
-				x.classes["depart-lost"] = true
+				if x.dtok {
+					x.label("MDepartLost")
+					x.classes["depart-lost"] = true
+				} else {
+					x.label("MDepartKept")
+					x.dtok = true
+					x.classes["depart-kept"] = true
+				}
 			}
 		}
 	}
@@ -400,8 +432,12 @@ func (x *mucRun) finish() {
 	// oracle (the C06 claim for Leave): the room's unavailable presence was processed while the call was in progress
 	if !x.failed && x.unavailDone {
 		for i, c := range x.calls {
-			if c.kind == "leave" && c.startedBeforeUnavail && c.pos != "ret" && !c.canc && x.departTo < 0 {
-				x.fail("C06/muc-leave/lost-depart", fmt.Sprintf("Leave call %d was in progress when the room's unavailable presence was handled, but the notification was dropped (the caller had not reached its select): the call blocks until its context ends", i))
+			if c.kind == "leave" && c.startedBeforeUnavail && c.pos != "ret" && !c.canc && !c.errOff && x.departTo < 0 {
+				if x.lateLeave {
+					x.fail("C06/muc-leave/lost-depart:drained-by-later-leave", fmt.Sprintf("Leave call %d was in progress when the room's unavailable presence was handled; the notification was kept for it, but a second Leave call that started afterwards discarded it as stale: both block until their contexts end", i))
+				} else {
+					x.fail("C06/muc-leave/lost-depart", fmt.Sprintf("Leave call %d was in progress when the room's unavailable presence was handled, but the notification was dropped (the caller had not reached its select): the call blocks until its context ends", i))
+				}
 				return
 			}
 		}
@@ -489,7 +525,7 @@ func (x *runner) mucFinish(run *mucRun, acts []mucAction, class string) {
 	for c := range run.classes {
 		cls = append(cls, "muc/saw-"+c)
 	}
-	x.res.Count(string(canon), run.classes["joined"] || run.classes["left"] || run.classes["depart-lost"] || run.classes["skip"], cls...)
+	x.res.Count(string(canon), run.classes["joined"] || run.classes["left"] || run.classes["depart-kept"] || run.classes["skip"], cls...)
 	if run.failed {
 		x.res.Fail(run.failKey, run.failWhat, cc)
 	} else {
@@ -572,7 +608,12 @@ func (x *runner) mucWalk(r *hx.Rand, steps int) {
 
 var mucCorpus = [][]mucAction{
 	// the room's unavailable presence is handled before the Leave caller reaches its select
-	{{Op: "join"}, {Op: "enter", C: 0}, {Op: "avail"}, {Op: "serve"}, {Op: "leave"}, {Op: "unavail"}, {Op: "serve"}, {Op: "enter", C: 1}},
+	// (the pinned design dropped the notification: 69447fe)
+	{{Op: "join"}, {Op: "enter", C: 0}, {Op: "avail"}, {Op: "serve"}, {Op: "leave"}, {Op: "unavail"}, {Op: "serve"}, {Op: "snap"}, {Op: "enter", C: 1}},
+	// ... and a second Leave call that starts afterwards discards the kept notification
+	{{Op: "join"}, {Op: "enter", C: 0}, {Op: "avail"}, {Op: "serve"}, {Op: "leave"}, {Op: "unavail"}, {Op: "serve"}, {Op: "leave"}, {Op: "enter", C: 1}, {Op: "enter", C: 2}},
+	// a Leave call that starts after the departure waits for its own context (stale notification dropped)
+	{{Op: "join"}, {Op: "enter", C: 0}, {Op: "avail"}, {Op: "serve"}, {Op: "unavail"}, {Op: "serve"}, {Op: "leave"}, {Op: "enter", C: 1}},
 	// the ordinary order
 	{{Op: "join"}, {Op: "enter", C: 0}, {Op: "avail"}, {Op: "serve"}, {Op: "leave"}, {Op: "enter", C: 1}, {Op: "unavail"}, {Op: "serve"}},
 	// join: presence taken before the caller reaches its select; error reply; stale joinCtx skipped
